@@ -1368,7 +1368,7 @@ def _time(I, args, kwargs):
 
 
 from . import libnp  # noqa: E402,F401  (registers numpy / pandas models)
-from .libnp import getitem, setitem  # noqa: E402,F401
+from .libnp import getitem, setitem, inplace_array_update  # noqa: E402,F401
 from .libpd import series_binop  # noqa: E402,F401
 
 
